@@ -14,9 +14,11 @@ package main
 
 import (
 	"fmt"
+	"os"
 	"sort"
 	"strings"
 	"sync"
+	"sync/atomic"
 	"time"
 
 	"github.com/bytom/bytom/protocol/bc"
@@ -26,6 +28,8 @@ import (
 	"verifharness/internal/memkv"
 	"verifharness/internal/node"
 )
+
+var sentinelSeq uint64
 
 type sim struct {
 	w        *node.World
@@ -73,8 +77,7 @@ func (s *sim) syncLoop() bool {
 	if s.pending > 0 {
 		return true
 	}
-	s.seq++
-	h := bc.Hash{V0: 0xfeedface, V1: s.seq}
+	h := bc.Hash{V0: 0xfeedface, V1: atomic.AddUint64(&sentinelSeq, 1)} // unique across all nodes of this process
 	ch := make(chan struct{})
 	s.smu.Lock()
 	s.sent[h] = ch
@@ -115,6 +118,13 @@ func (s *sim) step(c call) (died bool, problem string) {
 		return false, ""
 	case "makevote":
 		s.votes[c.ID] = &vote{v: c.V, s: c.S, t: c.T, ok: c.Ok, msg: node.SignVote(c.V, s.w.Blocks[c.S].Hash(), s.w.Blocks[c.T].Hash(), c.Ok)}
+		return false, ""
+	case "makequorum":
+		vs := append([]int{}, c.Vs...)
+		sort.Ints(vs)
+		for k, v := range vs {
+			s.votes[c.ID+k] = &vote{v: v, s: c.S, t: c.T, ok: true, msg: node.SignVote(v, s.w.Blocks[c.S].Hash(), s.w.Blocks[c.T].Hash(), true)}
+		}
 		return false, ""
 	case "carry":
 		s.carried[c.B] = append(s.carried[c.B], c.Vote)
@@ -268,6 +278,18 @@ func (s *sim) redeliver(steps []step) string {
 			s.release <- struct{}{}
 		}
 	}
+	// first the calls of the path itself, in their original order (what was already applied is a
+	// repetition, what was lost arrives again in the order the crash-free node saw it), then everything
+	for _, st := range steps {
+		if op := st.Call.Op; op == "deliver" || op == "vote" {
+			if _, p := s.step(st.Call); p != "" {
+				return p
+			}
+			if p := flush(); p != "" {
+				return p
+			}
+		}
+	}
 	for _, id := range ids {
 		if _, p := s.step(call{Op: "deliver", B: id}); p != "" {
 			return p
@@ -307,7 +329,7 @@ func crashCase(steps []step, n, me int) (points int, dvs []*divergence) {
 	if last < 0 {
 		return 0, nil
 	}
-	maxH := 4
+	maxH := 8
 	// crash-free twin
 	twin, err := newSim(memkv.New(), nil)
 	if err != nil {
@@ -439,6 +461,9 @@ func crashCase(steps []step, n, me int) (points int, dvs []*divergence) {
 		if volatile {
 			continue // orphans / cached votes were lost with the process: the arrival order differs legitimately
 		}
+		if os.Getenv("VERIF_DEBUG") != "" {
+			fmt.Fprintf(os.Stderr, "k=%d lost=%s\n before=%+v\n after=%+v\n restarted=%+v\n twinfinal=%+v\n restartedfinal=%+v\n", k-w0, lost, before, after, got, final, c.project(maxH))
+		}
 		if d := projEq(final, c.project(maxH)); d != "" {
 			cls := "all-tips-on-epoch-boundaries"
 			for id := range after.Stored {
@@ -447,6 +472,9 @@ func crashCase(steps []step, n, me int) (points int, dvs []*divergence) {
 				}
 			}
 			comp := strings.Fields(d)[0] // stored | best | finalized | status | index
+			if comp == "finalized" || comp == "status" {
+				cls = "lost=" + lost // finality differences are classified by the write that was lost
+			}
 			dvs = append(dvs, &divergence{last, "C19", "no-convergence:" + comp + ":" + cls, fmt.Sprintf("%s: after re-delivering every block and vote the restarted node differs from the crash-free node: %s", what, d)})
 			continue
 		}
